@@ -375,31 +375,46 @@ Section MapSpans.
   Qed.
 
   (** *** check_subword_spaces *)
-  Lemma expr_head_ms e : expr_head (ms e) = ms (expr_head e).
+  Definition omst (follow : option (list (string * expr))) := option_map mst follow.
+
+  Lemma followed_ms follow n : followed (omst follow) n = option_map ms (followed follow n).
   Proof.
-    induction e using expr_ind'; cbn [ms expr_head]; try reflexivity; try assumption.
-    destruct cs as [|c r]; [reflexivity|]. cbn [map]. inversion H; subst. assumption.
+    destruct follow as [t|]; cbn; [|reflexivity]. unfold mst. apply (assoc_map_snd ms).
   Qed.
 
-  Lemma expr_tail_ms e : expr_tail (ms e) = ms (expr_tail e).
+  Lemma last_opt_ms cs : last_opt (map ms cs) = option_map ms (last_opt cs).
+  Proof. unfold last_opt. rewrite <- map_rev. destruct (rev cs); reflexivity. Qed.
+
+  Lemma expr_head_ms follow fuel : forall e,
+    expr_head (omst follow) fuel (ms e) = ms_res ms (expr_head follow fuel e).
   Proof.
-    induction e using expr_ind'; try reflexivity; try (cbn [ms expr_tail]; assumption).
-    cbn [ms expr_tail].
-    set (e0 := Sequence cs sp).
-    change (Sequence (map ms cs) (f sp)) with (ms e0).
-    generalize e0. clear e0.
-    induction H as [|x l Hx Hl IH]; intro e0; [reflexivity|].
-    cbn [map]. destruct l as [|y l']; [exact Hx|]. cbn [map]. apply IH.
+    induction fuel as [|fuel IH]; intro e; [reflexivity|]. rewrite !expr_head_S.
+    destruct e; cbn [ms]; try reflexivity; try apply IH.
+    - rewrite followed_ms. destruct (followed follow name); cbn [option_map]; [apply IH|reflexivity].
+    - destruct children; cbn [map]; [reflexivity|apply IH].
   Qed.
 
-  Lemma adjacent_terminals_ms cs :
-    adjacent_terminals (map ms cs)
-    = option_map (fun p => (f (fst p), f (snd p))) (adjacent_terminals cs).
+  Lemma expr_tail_ms follow fuel : forall e,
+    expr_tail (omst follow) fuel (ms e) = ms_res ms (expr_tail follow fuel e).
+  Proof.
+    induction fuel as [|fuel IH]; intro e; [reflexivity|]. rewrite !expr_tail_S.
+    destruct e; cbn [ms]; try reflexivity; try apply IH.
+    - rewrite followed_ms. destruct (followed follow name); cbn [option_map]; [apply IH|reflexivity].
+    - rewrite last_opt_ms. destruct (last_opt children); cbn [option_map]; [apply IH|reflexivity].
+  Qed.
+
+  Definition msadj (x : option (span * span)) : option (span * span) :=
+    option_map (fun p => (f (fst p), f (snd p))) x.
+
+  Lemma adjacent_terminals_ms follow fuel cs :
+    adjacent_terminals (omst follow) fuel (map ms cs)
+    = ms_res msadj (adjacent_terminals follow fuel cs).
   Proof.
     induction cs as [|a r IH]; [reflexivity|]. destruct r as [|b r']; [reflexivity|].
     cbn [map adjacent_terminals] in *. rewrite expr_tail_ms, expr_head_ms.
-    destruct (expr_tail a); cbn [ms]; try exact IH.
-    destruct (expr_head b); cbn [ms]; try exact IH. reflexivity.
+    destruct (expr_tail follow fuel a) as [ta| | |]; cbn [ms_res obind]; try reflexivity.
+    destruct (expr_head follow fuel b) as [hb| | |]; cbn [ms_res obind]; try reflexivity.
+    destruct ta; cbn [ms]; try exact IH. destruct hb; cbn [ms]; try exact IH. reflexivity.
   Qed.
 
   Lemma sp_all_ms (rec rec' : expr -> res unit) cs :
@@ -410,22 +425,24 @@ Section MapSpans.
     destruct (rec x) as [[]| | |]; cbn; [exact IH|reflexivity|reflexivity|reflexivity].
   Qed.
 
-  Lemma spaces_ms t fuel : forall e trace within,
-    spaces (mst t) fuel (ms e) (map f trace) within
-    = ms_res (fun x => x) (spaces t fuel e trace within).
+  Lemma spaces_ms t fuel : forall e trace within juxt,
+    spaces (mst t) fuel (ms e) (map f trace) within juxt
+    = ms_res (fun x => x) (spaces t fuel e trace within juxt).
   Proof.
-    induction fuel as [|fuel IH]; intros e trace within; [reflexivity|].
+    induction fuel as [|fuel IH]; intros e trace within juxt; [reflexivity|].
     rewrite !spaces_S.
-    assert (Hall : forall cs, sp_all (fun c => spaces (mst t) fuel c (map f trace) within) (map ms cs)
-                              = ms_res (fun x => x) (sp_all (fun c => spaces t fuel c trace within) cs)).
+    assert (Hall : forall cs, sp_all (fun c => spaces (mst t) fuel c (map f trace) within false) (map ms cs)
+                              = ms_res (fun x => x) (sp_all (fun c => spaces t fuel c trace within false) cs)).
     { intro cs. apply sp_all_ms. apply Forall_forall. intros c _. apply IH. }
     destruct e; cbn [ms]; try reflexivity; try apply IH; try apply Hall.
     - unfold mst. rewrite (assoc_map_snd ms). fold (mst t).
       destruct (assoc name t); cbn [option_map]; [|reflexivity].
       change (map f trace ++ [f sp]) with (map f trace ++ map f [sp]). rewrite <- map_app. apply IH.
     - rewrite Hall. destruct (sp_all _ children) as [[]| | |]; cbn [ms_res obind]; try reflexivity.
-      destruct within; [|reflexivity]. rewrite adjacent_terminals_ms.
-      destruct (adjacent_terminals children) as [[l r]|]; reflexivity.
+      destruct within; [|reflexivity].
+      assert (Hf : follow_of (mst t) juxt = omst (follow_of t juxt)) by (destruct juxt; reflexivity).
+      rewrite Hf, adjacent_terminals_ms.
+      destruct (adjacent_terminals _ fuel children) as [[[l r]|]| | |]; reflexivity.
   Qed.
 
   (** *** the last passes *)
@@ -481,7 +498,7 @@ Definition back_end (builtins : shell -> list (string * string)) (g : grammar) (
   let expr2 := spec expr1 in
   do ord <- resolution_order defs2;
   let table := resolve_in_order ord (table0_of defs2) in
-  do _ <- spaces table (spaces_fuel table expr2) expr2 [] false;
+  do _ <- spaces table (spaces_fuel table expr2) expr2 [] false false;
   let expr5 := propagate (collapse (resolve table expr2)) 0 in
   let referenced := referenced_of defs1 expr1 in
   Ok (mkvalid command expr5 (get_nonterm_refs expr5) (unused_of referenced defs1)
@@ -560,7 +577,7 @@ Section Naturality.
     { unfold table0_of, mst. rewrite !map_map. reflexivity. }
     rewrite Ht, resolve_in_order_ms, spaces_fuel_ms.
     change (@nil span) with (map f (@nil span)) at 1. rewrite spaces_ms.
-    destruct (spaces _ _ _ [] false) as [[]| | |]; cbn [ms_res obind]; try reflexivity.
+    destruct (spaces _ _ _ [] false false) as [[]| | |]; cbn [ms_res obind]; try reflexivity.
     rewrite resolve_ms, collapse_ms, propagate_ms, get_nonterm_refs_ms, referenced_ms.
     unfold ms_valid. cbn [v_command v_expr v_undefined v_unused v_unused_specs]. f_equal. f_equal.
     - unfold unused_of. symmetry. rewrite <- (filter_msp f (fun p => negb (mem_str (fst p) _))
